@@ -1029,7 +1029,7 @@ def LaOnlyD (d d' : EData) : Prop :=
 
 /-- Closure properties of a local predicate `q` under the operations `toEntry`, `merge` and the
 augment stage perform. -/
-structure LocalOK (env : Env) (q : Entry → Bool) : Prop where
+structure LocalBase (env : Env) (q : Entry → Bool) : Prop where
   hdr : ∀ d c i o c' i' o', c.map hdr = c'.map hdr → i.map hdr = i'.map hdr → o.map hdr = o'.map hdr →
     q (.mk d c i o) = q (.mk d c' i' o')
   leaf : ∀ root scope n syn, (leafEntry env root scope n syn).d.errors = [] → q (leafEntry env root scope n syn) = true
@@ -1045,6 +1045,9 @@ structure LocalOK (env : Env) (q : Entry → Bool) : Prop where
     q (.mk d (c ++ [v]) i o) = true
   setInp : ∀ d c o (v : Entry), q (.mk d c [] o) = true → v.d.kind = .input → q (.mk d c [v] o) = true
   setOut : ∀ d c i (v : Entry), q (.mk d c i []) = true → v.d.kind = .output → q (.mk d c i [v]) = true
+
+/-- A local predicate with the closure properties that also excludes deviate entries as children. -/
+structure LocalOK (env : Env) (q : Entry → Bool) : Prop extends LocalBase env q where
   nd : ∀ e, q e = true → ndHere e = true
 
 /-- "If the tree carries no error, `q` holds at every node." -/
@@ -1530,5 +1533,196 @@ theorem stepFn_ok (isMod : Bool) (hS : isMod = true → root.seq ∈ S) (acc : E
         · simp only [List.mem_singleton] at hp; subst hp; exact Or.inr (hS hm')
 
 end Step
+
+theorem stepFn_output_inp (env : Env) (rec : Rec) (root : Mod) (n : Stmt) (sub : List Stmt) (visiting : List NodeId)
+    (isMod : Bool) (acc : Entry × TState) :
+    (stepFn env rec root n sub visiting isMod acc "output").1.inp = acc.1.inp := by
+  obtain ⟨e, st⟩ := acc
+  unfold stepFn
+  simp only []
+  split
+  · rfl
+  · cases e; rfl
+
+theorem fieldOrder_io (kw : String) (h : "input" ∈ fieldOrder kw ∨ "output" ∈ fieldOrder kw) :
+    fieldOrder kw = ["output", "input", "grouping", "description"] := by
+  revert h
+  unfold fieldOrder
+  split <;> simp
+
+
+theorem kindOfKw_ne_leaf (kw : String) : kindOfKw kw ≠ .leaf := by
+  unfold kindOfKw; split <;> simp
+
+theorem kindOfKw_list : kindOfKw "list" = .directory := by decide
+
+section Body
+variable {env : Env} {q : Entry → Bool} (hq : LocalOK env q) {rec : Rec} (hrec : RecOK q rec)
+  (root : Mod) (n : Stmt) (sub : List Stmt) (visiting : List NodeId) (S : List Nat)
+include hq
+
+theorem cond_e0 : Cond q (e0 root n) := by
+  intro hne
+  have h0 := e0_data root n
+  unfold e0 at hne h0 ⊢
+  rw [everyNode_mk]
+  simp only [Entry.d] at h0
+  refine ⟨hq.base _ h0.2.2.1 (by rw [h0.2.1]; exact kindOfKw_ne_leaf _) ?_ h0.2.2.2.2.2, by simp, by simp, by simp⟩
+  intro hl
+  rw [h0.2.1, h0.2.2.2.2.1 hl]; exact kindOfKw_list
+
+omit hq in
+theorem e0_kind : (e0 root n).d.kind ≠ .leaf := by
+  rw [(e0_data root n).2.1]; exact kindOfKw_ne_leaf _
+
+include hrec in
+theorem steps_ok (isMod : Bool) (hS : isMod = true → root.seq ∈ S) (st : TState) (hst : StOK q S st) :
+    AccOK q S ((fieldOrder n.kw).foldl (stepFn env rec root n sub visiting isMod) (e0 root n, st)) := by
+  by_cases hio : "input" ∈ fieldOrder n.kw ∨ "output" ∈ fieldOrder n.kw
+  · rw [fieldOrder_io _ hio]
+    simp only [List.foldl]
+    have k0 : (e0 root n).d.kind ≠ .leaf := e0_kind root n
+    have s1 := stepFn_ok hq hrec root n sub visiting S isMod hS (e0 root n, st) "output" ⟨cond_e0 hq root n, hst⟩ k0
+      (fun h => absurd h (by decide)) (fun _ => rfl)
+    have k1 := rootKeep_stepFn env rec root n sub visiting isMod (e0 root n, st) "output"
+    have i1 := stepFn_output_inp env rec root n sub visiting isMod (e0 root n, st)
+    generalize stepFn env rec root n sub visiting isMod (e0 root n, st) "output" = a1 at s1 k1 i1 ⊢
+    have k1' : a1.1.d.kind ≠ .leaf := by rw [k1.2.1]; exact k0
+    have s2 := stepFn_ok hq hrec root n sub visiting S isMod hS a1 "input" s1 k1'
+      (fun _ => i1) (fun h => absurd h (by decide))
+    have k2 := rootKeep_stepFn env rec root n sub visiting isMod a1 "input"
+    generalize stepFn env rec root n sub visiting isMod a1 "input" = a2 at s2 k2 ⊢
+    have k2' : a2.1.d.kind ≠ .leaf := by rw [k2.2.1]; exact k1'
+    have s3 := stepFn_ok hq hrec root n sub visiting S isMod hS a2 "grouping" s2 k2'
+      (fun h => absurd h (by decide)) (fun h => absurd h (by decide))
+    have k3 := rootKeep_stepFn env rec root n sub visiting isMod a2 "grouping"
+    generalize stepFn env rec root n sub visiting isMod a2 "grouping" = a3 at s3 k3 ⊢
+    have k3' : a3.1.d.kind ≠ .leaf := by rw [k3.2.1]; exact k2'
+    exact stepFn_ok hq hrec root n sub visiting S isMod hS a3 "description" s3 k3'
+      (fun h => absurd h (by decide)) (fun h => absurd h (by decide))
+  · have hni : "input" ∉ fieldOrder n.kw := fun h => hio (Or.inl h)
+    have hno : "output" ∉ fieldOrder n.kw := fun h => hio (Or.inr h)
+    refine (foldl_inv (fun acc : Entry × TState => AccOK q S acc ∧ acc.1.d.kind ≠ .leaf) _ _ _
+      ⟨⟨cond_e0 hq root n, hst⟩, e0_kind root n⟩ ?_).1
+    rintro acc f hf ⟨ha, hk⟩
+    refine ⟨stepFn_ok hq hrec root n sub visiting S isMod hS acc f ha hk
+      (fun h => absurd (h ▸ hf) hni) (fun h => absurd (h ▸ hf) hno), ?_⟩
+    rw [(rootKeep_stepFn env rec root n sub visiting isMod acc f).2.1]; exact hk
+
+
+omit hq in
+theorem cond_errorEntry (root : Mod) (n : Stmt) (cls : String) : Cond q (errorEntry root n cls) := by
+  intro hne
+  exact absurd (noErrors_own _ hne) (errorEntry_errors _ _ _)
+
+omit hq in
+theorem stOK_weaken (x : Nat) (st : TState) (h : StOK q S st) : StOK q (x :: S) st :=
+  ⟨h.cache, h.gcache, h.augs, fun p hp => (h.keys p hp).imp id (fun h => List.mem_cons_of_mem _ h)⟩
+
+theorem cond_leafEntry (scope : List Stmt) (syn : Bool) : Cond q (leafEntry env root scope n syn) := by
+  intro hne
+  have hd := leafEntry_data env root scope n syn
+  have hl := hq.leaf root scope n syn (noErrors_own _ hne)
+  generalize leafEntry env root scope n syn = le at hd hl ⊢
+  cases le with | mk d c i o =>
+  simp only [Entry.dir, Entry.inp, Entry.out] at hd
+  obtain ⟨_, _, _, _, _, rfl, rfl, rfl⟩ := hd
+  rw [everyNode_mk]; exact ⟨hl, by simp, by simp, by simp⟩
+
+theorem cond_leafList (scope : List Stmt) (la : ListAttr) (xs : List Err) (dl : List String) :
+    Cond q ((leafEntry env root scope n true).withD fun d =>
+      { d with listAttr := some la, errors := d.errors ++ xs, default := dl }) := by
+  intro hne
+  have hd := leafEntry_data env root scope n true
+  have hc := cond_leafEntry hq root n scope true
+  generalize leafEntry env root scope n true = le at hd hc hne ⊢
+  cases le with | mk d c i o =>
+  simp only [Entry.dir, Entry.inp, Entry.out, Entry.d] at hd
+  obtain ⟨_, hk, hdir, _, _, rfl, rfl, rfl⟩ := hd
+  simp only [Entry.withD] at hne ⊢
+  rw [noErrors_mk] at hne
+  have hde : d.errors = [] := (List.append_eq_nil_iff.mp hne.1).1
+  have := hc ((noErrors_mk _ _ _ _).2 ⟨hde, by simp, by simp, by simp⟩)
+  rw [everyNode_mk] at this ⊢
+  exact ⟨hq.leafList d la xs dl hk hdir this.1, by simp, by simp, by simp⟩
+
+include hrec in
+theorem dirBody_ok (scope : List Stmt) (st : TState) (hst : StOK q S st) (isMod : Bool) :
+    Cond q (dirBody env rec root scope n visiting st isMod).1 ∧
+      StOK q S (dirBody env rec root scope n visiting st isMod).2 := by
+  unfold dirBody
+  dsimp only
+  cases isMod with
+  | true =>
+    simp only [if_true]
+    have := steps_ok hq hrec root n (n :: scope) visiting (root.seq :: S) true (fun _ => List.mem_cons_self)
+      st (stOK_weaken S _ st hst)
+    refine ⟨this.1, ⟨?_, this.2.gcache, this.2.augs, ?_⟩⟩
+    · intro p hp
+      rcases List.mem_append.mp hp with hp | hp
+      · exact this.2.cache p hp
+      · simp only [List.mem_singleton] at hp; subst hp; exact this.1
+    · intro p hp
+      simp only [List.map_append, List.map_cons, List.map_nil, List.mem_append, List.mem_singleton]
+      rcases this.2.keys p hp with h | h
+      · exact Or.inl (Or.inl h)
+      · rcases List.mem_cons.mp h with h | h
+        · exact Or.inl (Or.inr h)
+        · exact Or.inr h
+  | false =>
+    simp only [Bool.false_eq_true, if_false]
+    have := steps_ok hq hrec root n (n :: scope) visiting S false (fun h => absurd h (by simp)) st hst
+    split
+    · exact ⟨this.1, ⟨this.2.cache, fun p hp => by
+        rcases List.mem_append.mp hp with hp | hp
+        · exact this.2.gcache p hp
+        · simp only [List.mem_singleton] at hp; subst hp; exact this.1, this.2.augs, this.2.keys⟩⟩
+    · exact this
+
+include hrec in
+/-- One level of `toEntry` keeps the invariant, given that the recursive calls do. -/
+theorem toEntryBody_ok (fuel : Nat) (scope : List Stmt) (st : TState) (hst : StOK q S st) :
+    Cond q (toEntryBody env fuel rec root scope n visiting st).1 ∧
+      StOK q S (toEntryBody env fuel rec root scope n visiting st).2 := by
+  unfold toEntryBody
+  dsimp only
+  split
+  · rename_i k e hfind
+    refine ⟨?_, hst⟩
+    split at hfind
+    · exact hst.cache _ (List.mem_of_find?_eq_some hfind)
+    · exact absurd hfind (by simp)
+  · split
+    · rename_i k e hfind
+      refine ⟨?_, hst⟩
+      split at hfind
+      · exact hst.gcache _ (List.mem_of_find?_eq_some hfind)
+      · exact absurd hfind (by simp)
+    · split
+      · exact ⟨cond_errorEntry _ _ _, hst⟩
+      · split
+        · exact ⟨cond_leafEntry hq root n scope false, hst⟩
+        · split
+          · exact ⟨cond_leafList hq root n scope _ _ _, hst⟩
+          · split
+            · split
+              · exact ⟨cond_errorEntry _ _ _, hst⟩
+              · obtain ⟨r1, r2, _⟩ := hrec _ _ _ _ st S hst
+                exact ⟨r1, r2⟩
+            · exact dirBody_ok hq hrec root n _ S scope st hst _
+
+end Body
+
+/-- The invariant of `toEntry`: from a good state it produces a good entry and a good state. -/
+theorem toEntry_ok {env : Env} {q : Entry → Bool} (hq : LocalOK env q) (fuel : Nat) : RecOK q (toEntry env fuel) := by
+  induction fuel with
+  | zero =>
+    intro root scope n visiting st S hst
+    exact ⟨cond_errorEntry _ _ _, hst, toEntry_shape env 0 root scope n visiting st⟩
+  | succ fuel ih =>
+    intro root scope n visiting st S hst
+    have := toEntryBody_ok hq ih root n visiting S fuel scope st hst
+    rw [toEntry_succ]
+    exact ⟨this.1, this.2, toEntryBody_shape _ _ _ _ _ _ _ _⟩
 
 end Goyang.Lemmas.Tree
